@@ -409,11 +409,22 @@ Definition op_receive_checked (s : st) (f : ltxrec) (body_ok : bool) : outcome *
   else if negb body_ok then (Failed, s)
   else op_receive s f.
 
-(* the forwarding endpoint: WriteLTXFileAt validates header and body before renaming; then apply *)
+(* the forwarding endpoint (http/server.go handlePostTx, then WriteLTXFileAt): the file has to continue the node's
+   position - also a file that starts at transaction 1, which WriteLTXFileAt by itself would let through because the
+   restore from a backup hands it such files - and its body is validated before the rename; then apply *)
 Definition op_forward (s : st) (f : ltxrec) (body_ok : bool) : outcome * st :=
-  if negb (is_snapshot f) && negb (extends_pos s f) then (Failed, s)
+  if negb (extends_pos s f) then (Failed, s)
   else if negb body_ok then (Failed, s)
   else op_apply (with_dir s (if is_snapshot f then [f] else ltxdir s ++ [f])) f true.
+(* correspondence for the forwarding endpoint: position, (first id, pre-checksum) of a well-formed file; 1 = stored *)
+Definition forward_accepts (t c mn pre : N) : N := if (mn =? t + 1) && (pre =? c) then 1 else 0.
+Definition mismatches_forward (cases : list (N * N * N * N * N)) : list nat :=
+  let fix go (i : nat) (cs : list (N * N * N * N * N)) : list nat :=
+    match cs with
+    | [] => []
+    | (t, c, mn, pre, want) :: rest => if forward_accepts t c mn pre =? want then go (S i) rest else i :: go (S i) rest
+    end in
+  go 0%nat cases.
 
 (* Import db.go:2781 (after the F5/F6 repairs): the image is validated and written to the next LTX file
    first; only then are journal and WAL discarded and the file applied.  [pages] = all pages of the
